@@ -1117,6 +1117,23 @@ func fmtBinarySample(c *core.Ctx) *core.ShardResult {
 				bad("binary-fmt-same-listing", "--show/--vars differ after --fmt:\nbefore %q %q\nafter  %q %q", show1.Stdout, vars1.Stdout, show2.Stdout, vars2.Stdout)
 				return
 			}
+			// what the binary wrote must mean what the file meant before (whatever the CLI layer does
+			// to the formatter's text on its way to the file)
+			t0, e0 := parser.New(text).Parse() // (not parse(): that one keeps per-worker state)
+			t1, e1 := parser.New(string(b1)).Parse()
+			if e0 == nil {
+				if e1 != nil {
+					bad("binary-fmt-keeps-file-working", "the file written by --fmt does not parse: %v", e1)
+					return
+				}
+				m0, _ := semCanon(t0)
+				m1, _ := semCanon(t1)
+				if m0 != m1 {
+					bad("binary-fmt-same-meaning", "the file written by --fmt means something else:\nbefore %s\nafter  %s", core.Trunc(m0, 600), core.Trunc(m1, 600))
+					return
+				}
+				res.Count("binary_fmt_meaning_compared", 1)
+			}
 		}
 		if c.Prop == "C11" {
 			f2 := run("--fmt")
